@@ -1,0 +1,5 @@
+//go:build !verif
+
+package filters
+
+func verifYield(string, string) {}
